@@ -187,8 +187,14 @@ class P:
             return ('p', k, v)
         if c == 't':
             self.eat('t(')
-            a = self.obj(); self.eat(','); b = self.obj(); self.eat(','); d = self.obj(); self.eat(')')
-            return ('t', a, b, d)
+            a = self.obj(); self.eat(','); b = self.obj(); self.eat(','); d = self.obj(); self.eat(';')
+            j = self.i
+            while j < len(self.s) and self.s[j] in '0123456789.':
+                j += 1
+            ch = tuple(int(x) for x in self.s[self.i:j].split('.'))
+            self.i = j
+            self.eat(')')
+            return ('t', a, b, d, ch)
         if c == 'U':
             self.eat('U(')
             t = self.text(); self.eat(';')
@@ -260,6 +266,12 @@ def kind(o):
 # proposal of the next operation from the state the model reports
 TEXTS = [b'a', b'b', b'ab', b'abc', b'b ', b' x y', b'zz', b'A', b'\xe9t\xe9', b'q' * 9, b'a,b;c', b"'a b' c", b'k1', b'k2', b'k3']
 URLS = [b'xq://u:pw@host:81/p/a?q=1', b'host', b'xq:host/path', b'//h?x', b'u@h', b':', b'xq://h:1', b'/only/path', b'?q']
+# tokenizer sources in which a non-default quote / dquote / escape member decides the tokens
+TOKTEXTS = [b"x |y z| w", b'a#  b', b'a\\ b "c d"', b'\xe9a b\xe9 c', b"a,b c", b"|a 'b| c'", b'a##b # c', b'"a b" \'c d\'']
+# values for the three character members: off (0), the defaults, characters of TOKTEXTS / TEXTS, blank, high-bit bytes
+QCHARS = [0, 39, 34, 92, 124, 35, 32, 44, 97, 233, 255]
+# stream contents for the constructors from FILE* / descriptor (NUL-free: str, ustr and tok read them too)
+FTEXTS = [b'', b'abc', b'ab\ncd', b'\nx', b'a b  c\nz', b'k1', b'\xe9\n']
 
 
 def addr_dep(o):
@@ -288,20 +300,32 @@ class Proposer:
 
     def new_leaf(self):
         r = self.rng
-        k = self.pick(['str', 'str', 'str', 'ustr', 'mbuff', 'obj', 'tok', 'url', 're', 'pairnew'])
+        k = self.pick(['str', 'str', 'str', 'ustr', 'mbuff', 'obj', 'tok', 'tok', 'url', 're', 'pairnew', 'fnew', 'fnew'])
+        if k == 'fnew':
+            return self.new_stream()
         if k in ('str', 'ustr', 'mbuff'):
             t = self.pick(['N', '-', None, None, None])
             return '%s %s' % (k, t if t else hx(self.pick(TEXTS)))
         if k == 'obj':
             return 'obj'
         if k == 'tok':
-            return 'tok %s' % self.pick(['N', hx(self.pick(TEXTS)), hx(b'a b  c'), hx(b"x 'y z' w")])
+            return 'tok %s' % self.pick(['N', hx(self.pick(TEXTS)), hx(b'a b  c'), hx(b"x 'y z' w"), hx(self.pick(TOKTEXTS)), hx(self.pick(TOKTEXTS))])
         if k == 'url':
             return 'url %s' % self.pick(['N', hx(self.pick(URLS)), hx(self.pick(URLS))])
         if k == 're':
             p = self.pick(RE_PATTERNS + ['N'])
             return 're %s' % (p if p in ('N', '-') else hxs(p))
         return 'pair _ _'
+
+    def new_stream(self):
+        """a constructor from FILE* / descriptor: regular file at offset 0 / in the middle / at its end, pipe,
+        closed descriptor, no stream"""
+        cls = self.pick(['str', 'ustr', 'mbuff', 'mbuff', 'tok'])
+        via = self.pick(['fp', 'fd'])
+        kind = self.pick(['reg', 'reg', 'reg', 'pipe', 'closed' if via == 'fd' else 'reg', 'bad'])
+        data = self.pick(FTEXTS)
+        pos = self.pick([0, 0, len(data), len(data) // 2, max(0, len(data) - 1)]) if kind == 'reg' else 0
+        return 'fnew %s %s %s %s %d' % (cls, via, kind, hx(data), pos)
 
     def propose(self, st):
         r = self.rng
@@ -347,6 +371,32 @@ class Proposer:
         if toks:
             add(2, lambda: 'eval %d' % self.pick(toks))
             add(1, lambda: '%s %d %s' % (self.pick(['setsrc', 'setsep']), self.pick(toks), self.pick(strs + ['_'])))
+            # the three character members; a list installed by the caller; members changed through their getters
+            add(1.5, lambda: 'setq %d %s %d' % (self.pick(toks), self.pick('qde'), self.pick(QCHARS)))
+            add(0.7, lambda: 'settoks %d %s' % (self.pick(toks), self.pick(lists + ['_'])))
+            tsel = [(h, i) for h in toks for i in (0, 1) if kind(st[h][1 + i]) == 's']
+            if tsel:
+                add(1, lambda: 'mappend %d %d %s' % (self.pick(tsel) + (hx(self.pick(TEXTS + [b'', b' z'])),)))
+            tl = [h for h in toks if kind(st[h][3]) == 'C']
+            if tl:
+                add(1.5, lambda: 'tlremove_at %d %d' % (self.pick(tl), r.randint(-3, 4)))
+                if objs:
+                    add(1, lambda: 'tlappend %d %d' % (self.pick(tl), self.pick(objs)))
+        psel = [(h, i) for h in pairs for i in (0, 1) if kind(st[h][1 + i]) in ('s', 'u', 'm')]
+        if psel:
+            add(1, lambda: 'mappend %d %d %s' % (self.pick(psel) + (hx(self.pick(TEXTS + [b''])),)))
+        usel = [(h, i) for h in urls for i in range(7) if i < len(st[h][2]) and kind(st[h][2][i]) == 's']
+        if usel:
+            add(1, lambda: 'mappend %d %d %s' % (self.pick(usel) + (hx(self.pick(TEXTS + [b''])),)))
+        if txt:
+            add(0.5, lambda: 'setlen %d -1' % self.pick(txt))
+        mbs = self.handles(st, lambda o: kind(o) == 'm')
+        if mbs:
+            def trunc():
+                h = self.pick(mbs)
+                n = len(st[h][1] or b'')
+                return 'setlen %d %d' % (h, self.pick([0, n, n // 2, max(0, n - 1)]))
+            add(0.8, trunc)
         if urls:
             add(1, lambda: 'urlset %d %d %s' % (self.pick(urls), r.randrange(7), self.pick(strs + ['_'])))
             add(1, lambda: 'unparse %d' % self.pick(urls))
@@ -500,6 +550,64 @@ def class_states():
           ('tok-eval', ['tok 6120622063', 'eval 0']),
           ('tok-sep', ['tok 612c622c', 'str 2c', 'setsep 0 1', 'eval 0']),
           ('tok-evalempty', ['tok 2020', 'eval 0']),
+          # the token list OUT OF STEP with the other members: a member changed after eval (setter, or in place
+          # through the getter) and not evaluated again; the list edited through get_tokens; a list installed
+          # with set_tokens (with and without a source, every list class, NULL)
+          ('tok-stale-sep', ['tok 612c622063', 'eval 0', 'str 2c', 'setsep 0 1']),
+          ('tok-stale-sep-null', ['tok 612c622063', 'str 2c', 'setsep 0 1', 'eval 0', 'setsep 0 _']),
+          ('tok-stale-src', ['tok 6120622063', 'eval 0', 'str 78207920', 'setsrc 0 1']),
+          ('tok-stale-src-null', ['tok 6120622063', 'eval 0', 'setsrc 0 _']),
+          ('tok-stale-quote', ['tok ' + hx(b"x 'y z' w"), 'eval 0', 'setq 0 q 0']),
+          ('tok-stale-dquote', ['tok ' + hx(b'x "y z" w'), 'eval 0', 'setq 0 d 124']),
+          ('tok-stale-escape', ['tok ' + hx(b'a\\ b c'), 'eval 0', 'setq 0 e 35']),
+          ('tok-stale-src-inplace', ['tok 6120', 'eval 0', 'mappend 0 0 2062']),
+          ('tok-stale-sep-inplace', ['tok 612c623b63', 'str 2c', 'setsep 0 1', 'eval 0', 'mappend 0 1 3b']),
+          ('tok-list-edited', ['tok 6120622063', 'eval 0', 'tlremove_at 0 0', 'del 1']),
+          ('tok-list-emptied', ['tok 61', 'eval 0', 'tlremove_at 0 0', 'del 1']),
+          ('tok-list-appended', ['tok 61', 'eval 0', 'str 7a', 'tlappend 0 1']),
+          ('tok-list-foreign', ['tok 6120', 'eval 0', 'cont L a', 'tlappend 0 1', 'str 71', 'pair 2 2', 'tlappend 0 3', 'del 2']),
+          ('tok-settoks-nosrc', ['tok N', 'cont L d', 'str 61', 'lappend 1 2', 'settoks 0 1']),
+          ('tok-settoks-array', ['tok 61206220', 'cont L a', 'str 7a', 'lappend 1 2', 'settoks 0 1']),
+          ('tok-settoks-linked', ['tok 61206220', 'eval 0', 'cont L l', 'str 7a', 'lappend 1 2', 'str 79', 'linsert_at 1 3 3', 'settoks 0 1']),
+          ('tok-settoks-empty', ['tok 6120', 'eval 0', 'cont L a', 'settoks 0 1']),
+          ('tok-settoks-null', ['tok 612062', 'eval 0', 'settoks 0 _']),
+          # the character members in use: set before eval (custom quote, dquote, escape; switched off; equal to a
+          # separator; high-bit byte)
+          ('tok-quote-bar', ['tok ' + hx(b"x |y z| 'w v'"), 'setq 0 q 124', 'eval 0']),
+          ('tok-dquote-bar', ['tok ' + hx(b'x |y z| "w v"'), 'setq 0 d 124', 'eval 0']),
+          ('tok-escape-hash', ['tok ' + hx(b'a# b c#'), 'setq 0 e 35', 'eval 0']),
+          ('tok-quotes-off', ['tok ' + hx(b"x 'y z' \"w v\""), 'setq 0 q 0', 'setq 0 d 0', 'setq 0 e 0', 'eval 0']),
+          ('tok-quote-is-sep', ['tok ' + hx(b"a,b 'c,d'"), 'str 2c', 'setsep 0 1', 'setq 0 q 44', 'eval 0']),
+          ('tok-quote-highbit', ['tok ' + hx(b'\xe9a b\xe9 c'), 'setq 0 q 233', 'eval 0']),
+          ('tok-quote-same', ['tok ' + hx(b'x |y z| w'), 'setq 0 q 124', 'setq 0 d 124', 'setq 0 e 124', 'eval 0']),
+          # made from a stream
+          ('tok-fp', ['fnew tok fp reg ' + hx(b'a b\nc') + ' 0', 'eval 0']),
+          ('tok-fd-mid', ['fnew tok fd reg ' + hx(b'a b c') + ' 2', 'eval 0']),
+          ('str-fp-line', ['fnew str fp reg ' + hx(b'ab\ncd') + ' 0']),
+          ('str-fp-eof', ['fnew str fp reg 616263 3']),
+          ('str-fd-mid', ['fnew str fd reg 6162636465 2']),
+          ('str-fd-closed', ['fnew str fd closed - 0']),
+          ('ustr-fp-pipe', ['fnew ustr fp pipe ' + hx(b'uv\nw') + ' 0']),
+          ('ustr-fd-pipe', ['fnew ustr fd pipe ' + hx(b'uv\nw') + ' 0']),
+          ('mbuff-fp-start', ['fnew mbuff fp reg 0061ff0a62 0']),
+          ('mbuff-fp-mid', ['fnew mbuff fp reg 6162636465 2']),
+          ('mbuff-fd-mid', ['fnew mbuff fd reg 6162636465 4']),
+          ('mbuff-fp-pipe', ['fnew mbuff fp pipe 616200 0']),
+          ('mbuff-fd-pipe-empty', ['fnew mbuff fd pipe - 0']),
+          ('mbuff-fd-closed', ['fnew mbuff fd closed - 0']),
+          # len / size members
+          ('mbuff-truncated', ['mbuff 61626364', 'setlen 0 2']),
+          ('mbuff-truncated-0', ['mbuff 61626364', 'setlen 0 0']),
+          ('mbuff-fd-mid-truncated', ['fnew mbuff fd reg 6162636465 1', 'setlen 0 3', 'setlen 0 -1']),
+          ('str-len-roundtrip', ['str 616263', 'setlen 0 -1']),
+          ('ustr-len-roundtrip', ['ustr -', 'setlen 0 -1']),
+          # members changed in place through their getters
+          ('pair-key-inplace', ['str 6b', 'str 76', 'pair 0 1', 'mappend 2 0 7a']),
+          ('pair-value-inplace', ['str 6b', 'mbuff N', 'pair 0 1', 'mappend 2 1 7a00']),
+          ('url-host-inplace', ['url ' + hx(b'xq://h/p'), 'mappend 0 3 7878']),
+          ('url-all-set', ['url ' + hx(b'xq://u:pw@h:1/p?q'), 'str 61', 'urlset 0 0 1', 'str 62', 'urlset 0 1 2', 'str 63', 'urlset 0 2 3',
+                           'str 64', 'urlset 0 3 4', 'str 65', 'urlset 0 4 5', 'str 66', 'urlset 0 5 6', 'str 67', 'urlset 0 6 7']),
+          ('url-all-inplace', ['url ' + hx(b'xq://u:pw@h:1/p?q')] + ['mappend 0 %d 7a' % f for f in range(7)]),
           ('url-null', ['url N']),
           ('url-full', ['url ' + hx(URLS[0])]),
           ('url-host', ['url ' + hx(b'host')]),
@@ -551,7 +659,8 @@ def renumber(ops, base):
                 'urlset': [1, 3], 'unparse': [1], 'flags': [1], 'compile': [1], 'lappend': [1, 2], 'lprepend': [1, 2],
                 'linsert': [1, 2], 'linsert_at': [1, 2], 'lremove': [1, 2], 'lremove_at': [1], 'lreverse': [1], 'vinsert': [1, 2],
                 'vremove': [1, 2], 'mset': [1, 2, 3], 'msetp': [1, 2], 'msetown': [1, 2], 'msetownp': [1, 2], 'mremove': [1, 2], 'mkeys': [1, 2], 'mvalues': [1, 2], 'mpairs': [1, 2],
-                'toarray': [1], 'iter': [1], 'query': [1, 2]}.get(name, [])
+                'toarray': [1], 'iter': [1], 'query': [1, 2], 'setq': [1], 'settoks': [1, 2], 'tlremove_at': [1], 'tlappend': [1, 2],
+                'mappend': [1], 'setlen': [1]}.get(name, [])
         for i in hpos:
             if t[i] != '_':
                 t[i] = str(int(t[i]) + base)
@@ -565,7 +674,7 @@ def count_handles(ops):
     for op in ops:
         name = op.split(' ')[0]
         if name in ('obj', 'str', 'ustr', 'mbuff', 'pair', 'tok', 'url', 're', 'cont', 'dup', 'substr', 'lremove', 'lremove_at',
-                    'vremove', 'mremove', 'toarray', 'iter'):
+                    'vremove', 'mremove', 'toarray', 'iter', 'fnew', 'tlremove_at'):
             n += 1
         elif name in ('mkeys', 'mvalues', 'mpairs') and op.split(' ')[2] == '_':
             n += 1
@@ -576,7 +685,7 @@ def subject(ops):
     """handle number of the object a class_states() entry builds: its first handle (containers,
     toks, urls, regexps are created first) or, for pairs, the last"""
     first = ops[0].split(' ')[0]
-    if first in ('cont', 'tok', 'url', 're', 'obj') or len(ops) == 1:
+    if first in ('cont', 'tok', 'url', 're', 'obj', 'fnew') or count_handles(ops) == 1:
         return 0
     return count_handles(ops) - 1
 
